@@ -357,7 +357,7 @@ Proof.
   cbn [rev] in Hf. rewrite app_nil_r in Hf.
   pose proof (ue_ne_concat (ue_bb s) Hne) as Hnc. rewrite Hf in Hnc.
   unfold afinal. rewrite <- Hm. unfold ue_obs in Hp.
-  destruct (ue_bb s) as [|b l] eqn:Ebb; destruct (ue_mode s) eqn:Ems; rewrite Hnc.
+  destruct (ue_bb s) as [|b l] eqn:Ebb; destruct (ue_mode s) eqn:Ems; rewrite ?Hnc.
   - (* no builder, key, empty field: nothing is added *)
     cbn [ue_some orb]. rewrite app_nil_r. unfold ue_obs. cbn [ue_params ue_flags ue_status]. exact Hp.
   - (* no builder, value *)
@@ -392,4 +392,437 @@ Proof.
   destruct (ue_fold_R cfg ([], ue_flags s0, ue_status s0) chunks s0 (mkA UeKey [] [] [])) as (HR & Hs & Hd).
   - unfold ue_R, ue_obs. cbn [am anm afld adone fold_left rev]. rewrite Hb, Hp. repeat split; auto; discriminate.
   - rewrite (ue_finalize_R _ _ _ _ HR). rewrite Hd. reflexivity.
+Qed.
+
+(* ================================================================== B. the parameter decoder *)
+
+Lemma ud_decode_u_indep cfg fl fl' a b c d : snd (ud_decode_u cfg fl a b c d) = snd (ud_decode_u cfg fl' a b c d).
+Proof. unfold ud_decode_u. destruct (ud_x2c a b =? 0); reflexivity. Qed.
+
+Ltac ud_pct_cases H :=
+  repeat match type of H with
+         | context [match ud_handling_of ?c with _ => _ end] => destruct (ud_handling_of c)
+         | context [ud_decode_u ?a ?b ?c ?d ?e ?f] => destruct (ud_decode_u a b c d e f)
+         | context [if ?b then _ else _] => destruct b
+         end.
+
+(* every pass that continues the loop consumes at least one byte *)
+Lemma ud_pct_shrinks cfg fl st r1 fl' st' a : ud_pct cfg fl st r1 = (fl', st', a) ->
+  match a with UdByte _ r' => (length r' <= length r1)%nat | UdSkip r' => (length r' <= length r1)%nat | UdStuck => True end.
+Proof.
+  unfold ud_pct, ud_mark_invalid. intros H.
+  destruct r1 as [|h1 [|h2 r3]]; [| |destruct r3 as [|h3 [|h4 [|h5 r6]]]];
+    ud_pct_cases H; inversion H; subst; cbn [length]; auto; lia.
+Qed.
+
+(* what is written and where reading resumes does not depend on the incoming flags / status *)
+Lemma ud_pct_act_indep cfg fl st fl' st' r1 : snd (ud_pct cfg fl st r1) = snd (ud_pct cfg fl' st' r1).
+Proof.
+  unfold ud_pct, ud_mark_invalid.
+  destruct r1 as [|h1 [|h2 r3]]; [| |destruct r3 as [|h3 [|h4 [|h5 r6]]]];
+    repeat match goal with
+           | |- context [match ud_handling_of ?c with _ => _ end] => destruct (ud_handling_of c)
+           | |- context [if ?b then _ else _] => destruct b
+           end; try reflexivity;
+    pose proof (ud_decode_u_indep cfg fl fl' h2 h3 h4 h5) as Hi;
+    try (pose proof (ud_decode_u_indep cfg (N.lor fl c_HTP_URLEN_INVALID_ENCODING) (N.lor fl' c_HTP_URLEN_INVALID_ENCODING) h2 h3 h4 h5) as Hi2);
+    repeat match goal with
+           | |- context [ud_decode_u ?a ?b ?c ?d ?e ?f] => destruct (ud_decode_u a b c d e f)
+           end; cbn [snd] in *; congruence.
+Qed.
+
+Lemma ud_fuel_sufficient cfg len : forall fuel fl st out rest,
+  (length rest < fuel)%nat -> ud_loop fuel cfg len fl st out rest <> None.
+Proof.
+  induction fuel as [|fuel IH]; intros fl st out rest Hf; [lia|].
+  destruct rest as [|c r1]; [discriminate|]. cbn [length] in Hf. cbn [ud_loop].
+  destruct (c =? ud_PCT).
+  - destruct (ud_pct cfg fl st r1) as [[f1 s1] a1] eqn:E1. pose proof (ud_pct_shrinks _ _ _ _ _ _ _ E1) as Hs.
+    destruct a1 as [b r'|r'|]; [| |discriminate].
+    + destruct (b =? 0); [destruct (d_nul_enc_term cfg); [discriminate|]|]; apply IH; lia.
+    + apply IH. lia.
+  - destruct (c =? ud_PLUS); [apply IH; lia|].
+    destruct (c =? 0); [destruct (d_nul_raw_term cfg); [discriminate|]|]; apply IH; lia.
+Qed.
+
+Lemma ud_loop_length cfg len : forall fuel fl st out rest b f t,
+  ud_loop fuel cfg len fl st out rest = Some (b, f, t) ->
+  (length out + length rest <= len)%nat -> (length b <= len)%nat.
+Proof.
+  induction fuel as [|fuel IH]; intros fl st out rest b f t H Hl; [discriminate|].
+  destruct rest as [|c r1].
+  - cbn in H. inversion H; subst. rewrite rev_length. cbn in Hl. lia.
+  - cbn [length] in Hl. cbn [ud_loop] in H.
+    destruct (c =? ud_PCT).
+    + destruct (ud_pct cfg fl st r1) as [[f1 s1] a1] eqn:E1. pose proof (ud_pct_shrinks _ _ _ _ _ _ _ E1) as Hs.
+      destruct a1 as [b' r'|r'|].
+      * destruct (b' =? 0); [destruct (d_nul_enc_term cfg)|].
+        -- inversion H; subst. rewrite rev_length. lia.
+        -- eapply IH; [exact H|]. cbn [length]. lia.
+        -- eapply IH; [exact H|]. cbn [length]. lia.
+      * eapply IH; [exact H|]. lia.
+      * inversion H; subst. rewrite app_length, rev_length, repeat_length. lia.
+    + destruct (c =? ud_PLUS); [eapply IH; [exact H|]; cbn [length]; lia|].
+      destruct (c =? 0); [destruct (d_nul_raw_term cfg)|].
+      * inversion H; subst. rewrite rev_length. lia.
+      * eapply IH; [exact H|]. cbn [length]. lia.
+      * eapply IH; [exact H|]. cbn [length]. lia.
+Qed.
+
+Definition ud_ofst (r : option (bytes * N * Z)) : option bytes := option_map (fun x => fst (fst x)) r.
+
+Lemma ud_loop_bytes_indep cfg len : forall fuel fl st fl' st' out rest,
+  ud_ofst (ud_loop fuel cfg len fl st out rest) = ud_ofst (ud_loop fuel cfg len fl' st' out rest).
+Proof.
+  induction fuel as [|fuel IH]; intros fl st fl' st' out rest; [reflexivity|].
+  destruct rest as [|c r1]; [reflexivity|]. cbn [ud_loop].
+  destruct (c =? ud_PCT).
+  - pose proof (ud_pct_act_indep cfg fl st fl' st' r1) as Hi.
+    destruct (ud_pct cfg fl st r1) as [[f1 s1] a1]. destruct (ud_pct cfg fl' st' r1) as [[f2 s2] a2].
+    cbn [snd] in Hi. subst a2.
+    destruct a1 as [b r'|r'|]; [| apply IH | reflexivity].
+    destruct (b =? 0); [destruct (d_nul_enc_term cfg); [reflexivity|]|]; apply IH.
+  - destruct (c =? ud_PLUS); [apply IH|].
+    destruct (c =? 0); [destruct (d_nul_raw_term cfg); [reflexivity|]|]; apply IH.
+Qed.
+
+(* the unwrapping in ud_urldecode_from never takes the out-of-fuel branch *)
+Lemma ud_from_loop cfg fl st s :
+  ud_loop (S (length s)) cfg (length s) fl st [] s = Some (ud_urldecode_from cfg fl st s).
+Proof.
+  unfold ud_urldecode_from.
+  destruct (ud_loop (S (length s)) cfg (length s) fl st [] s) eqn:E; [reflexivity|].
+  exfalso. revert E. apply ud_fuel_sufficient. lia.
+Qed.
+
+Theorem ud_from_bytes cfg fl st s : fst (fst (ud_urldecode_from cfg fl st s)) = ud_bytes cfg s.
+Proof.
+  unfold ud_bytes, ud_urldecode_ex.
+  pose proof (ud_loop_bytes_indep cfg (length s) (S (length s)) fl st 0 0%Z [] s) as H.
+  rewrite !ud_from_loop in H. cbn in H. congruence.
+Qed.
+
+Theorem ud_length_from cfg fl st s : (length (fst (fst (ud_urldecode_from cfg fl st s))) <= length s)%nat.
+Proof.
+  pose proof (ud_from_loop cfg fl st s) as H.
+  destruct (ud_urldecode_from cfg fl st s) as [[b f] t]. cbn [fst].
+  eapply ud_loop_length; [exact H|]. cbn. lia.
+Qed.
+
+Theorem ud_length cfg s : (length (ud_bytes cfg s) <= length s)%nat.
+Proof. apply ud_length_from. Qed.
+
+(* ================================================================== C. the theorems of the property *)
+
+Definition ue_decb (cfg : dcfg) (dec : bool) (b : bytes) : bytes := if dec then ud_bytes cfg b else b.
+
+Lemma ue_dec_bytes cfg dec fl st b : fst (fst (ue_dec cfg dec fl st b)) = ue_decb cfg dec b.
+Proof. unfold ue_dec, ue_decb. destruct dec; [apply ud_from_bytes|reflexivity]. Qed.
+
+Lemma ue_emit_params cfg dec : forall raws ps fl st,
+  fst (fst (fold_left (ue_emit cfg dec) raws (ps, fl, st)))
+  = ps ++ map (fun kv => (ue_decb cfg dec (fst kv), ue_decb cfg dec (snd kv))) raws.
+Proof.
+  induction raws as [|kv raws IH]; intros ps fl st.
+  - cbn. rewrite app_nil_r. reflexivity.
+  - cbn [fold_left map]. unfold ue_emit at 2.
+    pose proof (ue_dec_bytes cfg dec fl st (fst kv)) as H1.
+    destruct (ue_dec cfg dec fl st (fst kv)) as [[k f1] s1]. cbn [fst] in H1.
+    pose proof (ue_dec_bytes cfg dec f1 s1 (snd kv)) as H2.
+    destruct (ue_dec cfg dec f1 s1 (snd kv)) as [[v f2] s2]. cbn [fst] in H2.
+    rewrite IH, <- app_assoc. subst. reflexivity.
+Qed.
+
+Lemma ue_init_fresh : ue_fresh ue_init.
+Proof. repeat split. Qed.
+
+(* what htp_urlenp_create leaves in the parser, as regenerated from /repo *)
+Lemma ue_default_separator_is_amp : c_ue_default_separator = 38.
+Proof. reflexivity. Qed.
+Lemma ue_default_decode_on : c_ue_default_decode = true.
+Proof. reflexivity. Qed.
+
+(* pairs + flags + expected status, every configuration, every chunking *)
+Theorem ue_chunking_full cfg chunks : ue_run_full cfg chunks = ue_ref_full cfg (concat chunks).
+Proof.
+  unfold ue_run_full, ue_ref_full.
+  pose proof (ue_run_state_ref cfg ue_init chunks ue_init_fresh) as H. unfold ue_obs in H. exact H.
+Qed.
+
+Theorem ue_chunking cfg chunks : ue_run cfg chunks = ue_ref cfg (concat chunks).
+Proof.
+  unfold ue_run.
+  pose proof (ue_run_state_ref cfg ue_init chunks ue_init_fresh) as H. unfold ue_obs in H.
+  apply (f_equal (fun x => fst (fst x))) in H. cbn [fst] in H. rewrite H.
+  unfold ue_ref_gen. rewrite ue_emit_params. cbn [app].
+  unfold ue_ref_raw, ue_ref. rewrite map_map.
+  change (ue_sep ue_init) with c_ue_default_separator. rewrite ue_default_separator_is_amp.
+  apply map_ext. intros p. destruct (ue_split_first ue_EQ p) as [k v]. reflexivity.
+Qed.
+
+Theorem ue_split_invariant cfg c1 c2 : concat c1 = concat c2 -> ue_run cfg c1 = ue_run cfg c2.
+Proof. intros H. rewrite !ue_chunking, H. reflexivity. Qed.
+
+Theorem ue_split_invariant_full cfg c1 c2 : concat c1 = concat c2 -> ue_run_full cfg c1 = ue_run_full cfg c2.
+Proof. intros H. rewrite !ue_chunking_full, H. reflexivity. Qed.
+
+(* any separator, either setting of decode_url_encoding *)
+Theorem ue_chunking_with cfg sep dec chunks :
+  ue_run_with cfg sep dec chunks = ue_ref_gen cfg sep dec 0 0%Z (concat chunks).
+Proof.
+  unfold ue_run_with.
+  match goal with |- context [ue_run_state cfg ?s0 chunks] => pose proof (ue_run_state_ref cfg s0 chunks) as H end.
+  unfold ue_obs in H. apply H. repeat split.
+Qed.
+
+(* one whole chunk = htp_urlenp_parse_complete *)
+Lemma ue_parse_complete_run cfg s0 data : ue_parse_complete cfg s0 data = ue_run_state cfg s0 [data].
+Proof. reflexivity. Qed.
+
+(* pairs of the reference: count and shape *)
+Lemma ue_ref_length cfg s : length (ue_ref cfg s) = length (ue_pieces 38 s).
+Proof. unfold ue_ref. apply map_length. Qed.
+
+(* the query string through the request-line hook: no parser for an absent/empty query *)
+Theorem ue_tx_query_spec cfg q fl st :
+  ue_tx_query cfg q fl st =
+  match q with
+  | None => ([], fl, st)
+  | Some [] => ([], fl, st)
+  | Some q =>
+      let '(ps, fl', st') := ue_ref_gen cfg c_ue_default_separator c_ue_default_decode fl st q in
+      (map (fun nv => (c_ue_SOURCE_QUERY_STRING, fst nv, snd nv)) ps, fl', st')
+  end.
+Proof.
+  destruct q as [[|c q]|]; try reflexivity.
+  unfold ue_tx_query. cbn [length Nat.eqb].
+  rewrite ue_parse_complete_run.
+  pose proof (ue_run_state_ref cfg (ue_create fl st) [c :: q]) as H. unfold ue_obs in H.
+  cbn [concat] in H. rewrite app_nil_r in H.
+  change (ue_sep (ue_create fl st)) with c_ue_default_separator in H.
+  change (ue_decode (ue_create fl st)) with c_ue_default_decode in H.
+  change (ue_flags (ue_create fl st)) with fl in H. change (ue_status (ue_create fl st)) with st in H.
+  rewrite <- H by (repeat split). reflexivity.
+Qed.
+
+Theorem ue_tx_body_spec cfg chunks fl st :
+  ue_tx_body cfg chunks fl st =
+  let '(ps, fl', st') := ue_ref_gen cfg c_ue_default_separator c_ue_default_decode fl st (concat chunks) in
+  (map (fun nv => (c_ue_SOURCE_BODY, fst nv, snd nv)) ps, fl', st').
+Proof.
+  unfold ue_tx_body.
+  pose proof (ue_run_state_ref cfg (ue_create fl st) chunks) as H. unfold ue_obs in H.
+  change (ue_sep (ue_create fl st)) with c_ue_default_separator in H.
+  change (ue_decode (ue_create fl st)) with c_ue_default_decode in H.
+  change (ue_flags (ue_create fl st)) with fl in H. change (ue_status (ue_create fl st)) with st in H.
+  rewrite <- H by (repeat split). reflexivity.
+Qed.
+
+Theorem ue_tx_split_invariant cfg q c1 c2 : concat c1 = concat c2 -> ue_tx cfg q (Some c1) = ue_tx cfg q (Some c2).
+Proof.
+  intros H. unfold ue_tx. destruct (ue_tx_query cfg q 0 0%Z) as [[p1 fl] st].
+  rewrite !ue_tx_body_spec, H. reflexivity.
+Qed.
+
+(* ================================================================== D. exactness of output, flags and status on two fragments *)
+
+Definition ud_plus (cfg : dcfg) (c : N) : N := if (c =? ud_PLUS) && d_plusspace cfg then 32 else c.
+
+Fixpoint ud_until_nul (s : bytes) : bytes :=
+  match s with [] => [] | c :: r => if c =? 0 then [] else c :: ud_until_nul r end.
+
+Definition ud_has_nul (s : bytes) : bool := existsb (fun c => c =? 0) s.
+Definition ud_nopct (s : bytes) : bool := forallb (fun c => negb (c =? ud_PCT)) s.
+
+Lemma ud_unwanted_idem st u : ud_unwanted (ud_unwanted st u) u = ud_unwanted st u.
+Proof. unfold ud_unwanted. destruct (Z.eqb (Z.of_nat u) c_ue_UNWANTED_IGNORE); reflexivity. Qed.
+
+Lemma ud_lor_idem fl x : N.lor (N.lor fl x) x = N.lor fl x.
+Proof. rewrite <- N.lor_assoc, N.lor_diag. reflexivity. Qed.
+
+Lemma ud_plus_plus cfg c : (c =? ud_PLUS) = true -> ud_plus cfg c = if d_plusspace cfg then 32 else c.
+Proof. intros H. unfold ud_plus. rewrite H. reflexivity. Qed.
+Lemma ud_plus_other cfg c : (c =? ud_PLUS) = false -> ud_plus cfg c = c.
+Proof. intros H. unfold ud_plus. rewrite H. reflexivity. Qed.
+
+(* D.1 no '%' in the input: '+' per configuration, raw NUL flagged, truncation iff nul_raw_terminates *)
+Lemma ud_loop_nopct cfg len : forall fuel fl st out rest,
+  (length rest < fuel)%nat -> ud_nopct rest = true ->
+  ud_loop fuel cfg len fl st out rest =
+  Some (rev out ++ map (ud_plus cfg) (if d_nul_raw_term cfg then ud_until_nul rest else rest),
+        (if ud_has_nul rest then N.lor fl c_HTP_URLEN_RAW_NUL else fl),
+        (if ud_has_nul rest then ud_unwanted st (d_nul_raw_unwanted cfg) else st)).
+Proof.
+  induction fuel as [|fuel IH]; intros fl st out rest Hf Hn; [lia|].
+  destruct rest as [|c r1].
+  - cbn. destruct (d_nul_raw_term cfg); rewrite app_nil_r; reflexivity.
+  - cbn [length] in Hf. cbn [ud_nopct forallb] in Hn. apply andb_true_iff in Hn as [Hc Hn].
+    apply negb_true_iff in Hc. cbn [ud_loop]. rewrite Hc.
+    change (ud_has_nul (c :: r1)) with ((c =? 0) || ud_has_nul r1).
+    change (ud_until_nul (c :: r1)) with (if c =? 0 then [] else c :: ud_until_nul r1).
+    destruct (c =? ud_PLUS) eqn:Ep.
+    + assert (Hz : (c =? 0) = false) by (apply N.eqb_eq in Ep; subst; reflexivity).
+      rewrite IH by (try lia; exact Hn). rewrite Hz. cbn [orb rev].
+      destruct (d_nul_raw_term cfg); cbn [map]; rewrite <- app_assoc; rewrite (ud_plus_plus cfg c Ep); reflexivity.
+    + destruct (c =? 0) eqn:Ez.
+      * cbn [orb]. destruct (d_nul_raw_term cfg) eqn:Et.
+        -- cbn [map]. rewrite app_nil_r. reflexivity.
+        -- rewrite IH by (try lia; exact Hn). rewrite ?Et. cbn [rev map]. rewrite <- app_assoc.
+           rewrite (ud_plus_other cfg c Ep). cbn [app].
+           destruct (ud_has_nul r1); rewrite ?ud_lor_idem, ?ud_unwanted_idem; reflexivity.
+      * rewrite IH by (try lia; exact Hn). cbn [orb rev].
+        destruct (d_nul_raw_term cfg); cbn [map]; rewrite <- app_assoc; rewrite (ud_plus_other cfg c Ep); reflexivity.
+Qed.
+
+Theorem ud_nopct_spec cfg fl st s :
+  ud_nopct s = true ->
+  ud_urldecode_from cfg fl st s =
+  (map (ud_plus cfg) (if d_nul_raw_term cfg then ud_until_nul s else s),
+   (if ud_has_nul s then N.lor fl c_HTP_URLEN_RAW_NUL else fl),
+   (if ud_has_nul s then ud_unwanted st (d_nul_raw_unwanted cfg) else st)).
+Proof.
+  intros H. pose proof (ud_from_loop cfg fl st s) as E.
+  rewrite ud_loop_nopct in E by (try lia; exact H). cbn [rev app] in E. inversion E. reflexivity.
+Qed.
+
+(* D.2 well-formed input: every '%' is followed by two hexadecimal digits that do not encode NUL,
+   no raw NUL: the output is the textbook percent-decoding, no flag is raised, the expected status
+   is untouched -- for every configuration (a hex digit is not 'u', so %u decoding never applies) *)
+Definition ud_hexval (c : N) : N := if c <=? 57 then c - 48 else if c <=? 70 then c - 55 else c - 87.
+
+Fixpoint ud_wfb (s : bytes) : bool :=
+  match s with
+  | [] => true
+  | c :: r =>
+      if c =? ud_PCT then
+        match r with
+        | a :: b :: r' => c_isxdigit a && c_isxdigit b && negb (16 * ud_hexval a + ud_hexval b =? 0) && ud_wfb r'
+        | _ => false
+        end
+      else negb (c =? 0) && ud_wfb r
+  end.
+
+Fixpoint ud_ref_decode (plus : bool) (s : bytes) : bytes :=
+  match s with
+  | [] => []
+  | c :: r =>
+      if c =? ud_PCT then
+        match r with
+        | a :: b :: r' => (16 * ud_hexval a + ud_hexval b) :: ud_ref_decode plus r'
+        | _ => c :: ud_ref_decode plus r
+        end
+      else (if (c =? ud_PLUS) && plus then 32 else c) :: ud_ref_decode plus r
+  end.
+
+Lemma ud_xdigit_sweep :
+  forallb (fun a => implb (c_isxdigit a) ((ud_x2c_digit a =? ud_hexval a) && (ud_hexval a <? 16)
+                                          && negb (a =? ud_LC_U) && negb (a =? ud_UC_U))) all_bytes = true.
+Proof. vm_compute. reflexivity. Qed.
+
+Lemma ud_xdigit_facts a : c_isxdigit a = true ->
+  ud_x2c_digit a = ud_hexval a /\ ud_hexval a < 16 /\ (a =? ud_LC_U) = false /\ (a =? ud_UC_U) = false.
+Proof.
+  intros Hx.
+  assert (Hb : a < 256).
+  { destruct (N.ltb_spec a 256) as [H|H]; [exact H|].
+    unfold c_isxdigit, tbool in Hx. rewrite tget_overflow in Hx by (vm_compute; intros E; apply H; exact E || lia).
+    discriminate. }
+  pose proof (byte_sweep _ ud_xdigit_sweep a Hb) as H. cbn beta in H. rewrite Hx in H. cbn [implb] in H.
+  apply andb_true_iff in H as [H H4]. apply andb_true_iff in H as [H H3]. apply andb_true_iff in H as [H1 H2].
+  apply N.eqb_eq in H1. apply N.ltb_lt in H2. apply negb_true_iff in H3. apply negb_true_iff in H4. auto.
+Qed.
+
+Lemma ud_x2c_hex a b : c_isxdigit a = true -> c_isxdigit b = true -> ud_x2c a b = 16 * ud_hexval a + ud_hexval b.
+Proof.
+  intros Ha Hb. destruct (ud_xdigit_facts a Ha) as (E1 & L1 & _). destruct (ud_xdigit_facts b Hb) as (E2 & L2 & _).
+  unfold ud_x2c. rewrite E1, E2.
+  rewrite (N.mod_small (ud_hexval a * 16) 256) by lia. rewrite N.mod_small by lia. lia.
+Qed.
+
+Lemma ud_loop_wf cfg len : forall fuel fl st out rest,
+  (length rest < fuel)%nat -> ud_wfb rest = true ->
+  ud_loop fuel cfg len fl st out rest = Some (rev out ++ ud_ref_decode (d_plusspace cfg) rest, fl, st).
+Proof.
+  induction fuel as [|fuel IH]; intros fl st out rest Hf Hw; [lia|].
+  destruct rest as [|c r1]; [cbn; rewrite app_nil_r; reflexivity|].
+  cbn [length] in Hf. cbn [ud_wfb] in Hw. cbn [ud_loop ud_ref_decode].
+  destruct (c =? ud_PCT) eqn:Ec.
+  - destruct r1 as [|a [|b r3]]; try discriminate.
+    apply andb_true_iff in Hw as [Hw Hr]. apply andb_true_iff in Hw as [Hw Hz]. apply andb_true_iff in Hw as [Ha Hb].
+    destruct (ud_xdigit_facts a Ha) as (_ & _ & U1 & U2).
+    unfold ud_pct. rewrite U1, U2. cbn [orb]. rewrite andb_false_r. rewrite Ha, Hb. cbn [andb].
+    rewrite ud_x2c_hex by assumption. apply negb_true_iff in Hz. rewrite Hz.
+    rewrite IH by (try exact Hr; cbn [length] in *; lia). cbn [rev]. rewrite <- app_assoc. reflexivity.
+  - apply andb_true_iff in Hw as [Hz Hr]. apply negb_true_iff in Hz.
+    destruct (c =? ud_PLUS) eqn:Ep.
+    + rewrite IH by (try exact Hr; lia). cbn [rev andb]. rewrite <- app_assoc.
+      destruct (d_plusspace cfg); reflexivity.
+    + rewrite Hz. rewrite IH by (try exact Hr; lia). cbn [rev andb]. rewrite <- app_assoc. reflexivity.
+Qed.
+
+Theorem ud_wellformed_spec cfg fl st s :
+  ud_wfb s = true -> ud_urldecode_from cfg fl st s = (ud_ref_decode (d_plusspace cfg) s, fl, st).
+Proof.
+  intros H. pose proof (ud_from_loop cfg fl st s) as E.
+  rewrite ud_loop_wf in E by (try lia; exact H). cbn [rev app] in E. inversion E. reflexivity.
+Qed.
+
+(* D.3 flags are only ever added *)
+Lemma ud_lor_sub fl x : N.land fl (N.lor fl x) = fl.
+Proof. apply N.bits_inj. intros n. rewrite N.land_spec, N.lor_spec. destruct (N.testbit fl n); reflexivity. Qed.
+
+Definition ud_sub (f g : N) : Prop := N.land f g = f.
+Lemma ud_sub_refl f : ud_sub f f. Proof. apply N.land_diag. Qed.
+Lemma ud_sub_lor f g x : ud_sub f g -> ud_sub f (N.lor g x).
+Proof.
+  unfold ud_sub. intros H. apply N.bits_inj. intros n. rewrite N.land_spec, N.lor_spec.
+  apply (f_equal (fun v => N.testbit v n)) in H. rewrite N.land_spec in H.
+  destruct (N.testbit f n), (N.testbit g n); cbn in *; congruence.
+Qed.
+
+Lemma ud_decode_u_sub cfg fl a b c d f : ud_sub f fl -> ud_sub f (fst (ud_decode_u cfg fl a b c d)).
+Proof.
+  intros H. unfold ud_decode_u. destruct (ud_x2c a b =? 0); cbn [fst]; [apply ud_sub_lor; exact H|].
+  destruct ((ud_x2c a b =? 255) && (ud_x2c c d <=? 239)); [apply ud_sub_lor|]; exact H.
+Qed.
+
+Lemma ud_pct_sub cfg fl st r1 f : ud_sub f fl -> ud_sub f (fst (fst (ud_pct cfg fl st r1))).
+Proof.
+  intros H. unfold ud_pct, ud_mark_invalid.
+  destruct r1 as [|h1 [|h2 r3]]; [| |destruct r3 as [|h3 [|h4 [|h5 r6]]]];
+    repeat match goal with
+           | |- context [match ud_handling_of ?c with _ => _ end] => destruct (ud_handling_of c)
+           | |- context [if ?b then _ else _] => destruct b
+           end; cbn [fst]; try (apply ud_sub_lor; exact H); try exact H.
+  all: try (pose proof (ud_decode_u_sub cfg fl h2 h3 h4 h5 f H) as Hd; destruct (ud_decode_u cfg fl h2 h3 h4 h5); exact Hd).
+  all: pose proof (ud_decode_u_sub cfg (N.lor fl c_HTP_URLEN_INVALID_ENCODING) h2 h3 h4 h5 f (ud_sub_lor _ _ _ H)) as Hd;
+       destruct (ud_decode_u cfg (N.lor fl c_HTP_URLEN_INVALID_ENCODING) h2 h3 h4 h5); exact Hd.
+Qed.
+
+Lemma ud_loop_flags_mono cfg len : forall fuel fl st out rest b g t f,
+  ud_loop fuel cfg len fl st out rest = Some (b, g, t) -> ud_sub f fl -> ud_sub f g.
+Proof.
+  induction fuel as [|fuel IH]; intros fl st out rest b g t f H Hs; [discriminate|].
+  destruct rest as [|c r1]; [cbn in H; inversion H; subst; exact Hs|].
+  cbn [ud_loop] in H. destruct (c =? ud_PCT).
+  - pose proof (ud_pct_sub cfg fl st r1 f Hs) as Hp.
+    destruct (ud_pct cfg fl st r1) as [[f1 s1] a1]. cbn [fst] in Hp.
+    destruct a1 as [b' r'|r'|].
+    + destruct (b' =? 0); [destruct (d_nul_enc_term cfg)|].
+      * inversion H; subst. apply ud_sub_lor. exact Hp.
+      * eapply IH; [exact H|]. apply ud_sub_lor. exact Hp.
+      * eapply IH; [exact H|]. exact Hp.
+    + eapply IH; [exact H|]. exact Hp.
+    + inversion H; subst. exact Hp.
+  - destruct (c =? ud_PLUS); [eapply IH; [exact H|exact Hs]|].
+    destruct (c =? 0); [destruct (d_nul_raw_term cfg)|].
+    + inversion H; subst. apply ud_sub_lor. exact Hs.
+    + eapply IH; [exact H|]. apply ud_sub_lor. exact Hs.
+    + eapply IH; [exact H|exact Hs].
+Qed.
+
+Theorem ud_flags_monotone cfg fl st s : N.land fl (snd (fst (ud_urldecode_from cfg fl st s))) = fl.
+Proof.
+  pose proof (ud_from_loop cfg fl st s) as H. destruct (ud_urldecode_from cfg fl st s) as [[b g] t]. cbn [fst snd].
+  exact (ud_loop_flags_mono _ _ _ _ _ _ _ _ _ _ _ H (ud_sub_refl fl)).
 Qed.
